@@ -1234,6 +1234,12 @@ impl TypeChecker {
         span: MetaId,
         cause: Option<MetaId>,
     ) -> TypeResult<Type> {
+        // `a` is the type that is expected and `b` the type that was found.
+        // An expression of type `!` diverges, so it can stand in for a value
+        // of any type. The reverse does not hold: no value inhabits `!`.
+        if let Type::Never = self.resolve_type(b) {
+            return Ok(self.resolve_type(a));
+        }
         if let Some(ty) = self.unify_inner(a, b) {
             Ok(ty)
         } else {
@@ -1266,8 +1272,6 @@ impl TypeChecker {
                     b.display(&self.type_info),
                 )
             }
-            // The never type is special and unifies with anything
-            (Never, x) | (x, Never) => x,
             (IntVar(a, a_signed), IntVar(b, b_signed)) => {
                 self.unify_intvars(a, a_signed, b, b_signed)
             }
